@@ -108,3 +108,85 @@ def r10h(ctx: Ctx, modules: tuple[str, ...] = ("cirkit.templates", "cirkit.symbo
             if not memo:
                 obs.append(ok("R10h", c.qualname, f"{m.name}:no-memo", "structure mutated in place; no memoising query method in the class", m.loc, nontrivial=False))
     return obs
+
+
+# ------------------------------------------------------------------------------------------ R6s
+MUTABLE_CTORS = {"dict", "list", "set", "defaultdict", "OrderedDict", "Counter", "deque", "BiMap", "WeakKeyDictionary", "WeakValueDictionary"}
+
+
+def _is_mutable_container(e: ast.AST) -> bool:
+    if isinstance(e, (ast.Dict, ast.List, ast.Set, ast.DictComp, ast.ListComp, ast.SetComp)):
+        return True
+    if isinstance(e, ast.Call):
+        return (dotted(e.func) or "").split(".")[-1] in MUTABLE_CTORS
+    return False
+
+
+def _is_classvar(ann: ast.AST | None) -> bool:
+    if ann is None:
+        return False
+    txt = unparse(ann)
+    return txt.startswith(("ClassVar", "typing.ClassVar", "Final", "typing.Final"))
+
+
+def r6s(ctx: Ctx, modules: tuple[str, ...] = ("cirkit",)) -> list[Ob]:
+    """R6s -- per-instance state is created per instance.
+
+    A mutable container bound in a *class body* (``_compiled_parameters: dict[..] = {}``) is one
+    object shared by every instance.  When a method of the class (or of a subclass) mutates it
+    through ``self`` -- ``self.X[k] = v``, ``self.X.clear()``, ``self.X += ..`` -- and no ``__init__``
+    in the hierarchy rebinds ``self.X``, every instance writes into the same container: two compilers
+    (two pipeline contexts) then share one symbolic -> compiled parameter registry, and a circuit
+    derived in one context points at the tensors the *other* context compiled last.  Attributes
+    declared ``ClassVar`` / ``Final`` (registries that are shared on purpose and written through
+    ``cls``) and dataclass ``field(default_factory=..)`` defaults are not instances of the pattern.
+    """
+    obs: list[Ob] = []
+    for c in ctx.repo.classes.values():
+        if not c.module.name.startswith(modules):
+            continue
+        shared: dict[str, ast.AST] = {}
+        for st in c.node.body:
+            if isinstance(st, ast.AnnAssign) and isinstance(st.target, ast.Name) and st.value is not None:
+                if _is_mutable_container(st.value) and not _is_classvar(st.annotation):
+                    shared[st.target.id] = st
+            elif isinstance(st, ast.Assign) and len(st.targets) == 1 and isinstance(st.targets[0], ast.Name):
+                if _is_mutable_container(st.value):
+                    shared[st.targets[0].id] = st
+        if not shared:
+            obs.append(ok("R6s", c.qualname, "class-level-state", "no mutable container is bound in the class body (or only ClassVar registries)", c.loc, nontrivial=False))
+            continue
+        family = [c] + [x for x in ctx.repo.subclasses(c) if x is not c]
+        for name, st in shared.items():
+            rebinds = False
+            mutated_at: str | None = None
+            for k in family:
+                for m in k.methods.values():
+                    for n in walk_no_nested(m.node):
+                        # self.X = ..   in __init__ (or any method run by __init__ is out of reach: only __init__ counts)
+                        if isinstance(n, (ast.Assign, ast.AnnAssign)) and m.name == "__init__":
+                            tg = n.targets if isinstance(n, ast.Assign) else [n.target]
+                            if any(is_self_attr(t) == name for t in tg) and getattr(n, "value", None) is not None:
+                                rebinds = True
+                        if isinstance(n, (ast.Subscript,)) and isinstance(n.ctx, (ast.Store, ast.Del)) and is_self_attr(n.value) == name:
+                            mutated_at = mutated_at or f"{k.module.relpath}:{n.lineno} ({m.name}: self.{name}[..] written)"
+                        if isinstance(n, ast.Call) and isinstance(n.func, ast.Attribute) and n.func.attr in MUTATORS and is_self_attr(n.func.value) == name:
+                            mutated_at = mutated_at or f"{k.module.relpath}:{n.lineno} ({m.name}: self.{name}.{n.func.attr}(..))"
+                        if isinstance(n, ast.AugAssign) and is_self_attr(n.target) == name:
+                            mutated_at = mutated_at or f"{k.module.relpath}:{n.lineno} ({m.name}: self.{name} augmented in place)"
+            loc = f"{c.module.relpath}:{st.lineno}"
+            if mutated_at and not rebinds:
+                obs.append(
+                    viol(
+                        "R6s",
+                        c.qualname,
+                        f"class-level-state:{name}",
+                        f"`{unparse(st)[:70]}` is evaluated once, in the class body, and mutated through self at {mutated_at}; no __init__ rebinds "
+                        f"self.{name}: all instances of {c.name} share one container (two compilers / pipeline contexts overwrite each other's "
+                        "symbolic -> compiled entries, and a derived circuit points at tensors of the other context)",
+                        loc,
+                    )
+                )
+            else:
+                obs.append(ok("R6s", c.qualname, f"class-level-state:{name}", "rebound per instance in __init__" if rebinds else "never mutated through self", loc))
+    return obs
